@@ -132,6 +132,21 @@ package codegen
 //@   ensures [C01,C20] one-import-per-path: imports_count(p.Imports, qualifiedName) == 1
 //@   ensures [C01] others-kept: len(p.Imports) == old(len(p.Imports)) + (old(imports_have(p.Imports, qualifiedName)) ? 0 : 1)
 
+// ---- one declaration per thing (Package.AddDecl) ---------------------------------
+// The generator adds a constant per enum value and an alias per dereferenced
+// allOf/anyOf member each time it meets them; a declaration EQUAL to one already in
+// the package — another pointer to the same content — must not be added again, or
+// the name is redeclared and the file does not compile.
+//@ func (*Package).AddDecl@dedup
+//@   props C01 C08 C11
+//@   option verify-only
+//@   option noframe
+//@   shape p = new
+//@   shape p.Decls = constdecls() | constdecls(A) | constdecls(B,A)
+//@   shape d = constdecl(A) | constdecl(C)
+//@   ensures [C01,C08,C11] an-equal-declaration-is-not-added-again: old(count_decls(p.Decls, "*codegen.Constant")) >= 1 && d.Name == "A" ==> len(p.Decls) == old(len(p.Decls))
+//@   ensures [C01] a-new-declaration-is-added: (d.Name == "C" || old(len(p.Decls)) == 0) ==> len(p.Decls) == old(len(p.Decls)) + 1 && last(p.Decls) == d
+
 // ---- the name a package is referred to by (C20) ----------------------------------
 // The last element of the import path; a path without '/' or ending in '/' is its
 // own name. Cross-package references are qualified with it and the import is
